@@ -264,7 +264,8 @@ def check_direct(rep, prog, m):
             sing = single_assignments(fn)
             if 'half_dx' in sing and ast.unparse(sing['half_dx']) == 'dx / 2.0':
                 manual = [n for n in ast.walk(fn) if isinstance(n, ast.Assign) and ast.unparse(n.targets[0]) == 'ans']
-                okman = bool(manual) and ast.unparse(manual[0].value) == 'numpy.sum(half_dx * (integrand[1:] + integrand[:-1]))'
+                okman = bool(manual) and ast.unparse(manual[0].value) in ('numpy.sum(half_dx * (integrand[1:] + integrand[:-1]))', 'numpy.sum(half_dx * (integrand[:-1] + integrand[1:]))',
+                                                                         'numpy.sum((integrand[1:] + integrand[:-1]) * half_dx)', 'numpy.sum((integrand[:-1] + integrand[1:]) * half_dx)')
                 dxs = dxs + (['dx'] if okman else [])
             rep.ob('R-IDX', '%s integration order' % q, dxs == want, 'trapezoid integrations use spacings %s; expected %s' % (dxs, want), rel, fn.lineno, what='axes integrated from the last to the first, each with its own spacing')
             bc = True
